@@ -32,7 +32,10 @@ Judge(e) ==
   LET p   == pos
       nul == NulAt(buf, p, dmax0)                   \* the terminator must lie inside the declared extent
       V(ok, why, dev, b, np, lv, ex) == [ok |-> ok, why |-> why, dev |-> dev, b |-> b, pos |-> np, live |-> lv, ex |-> ex]
-  IN IF e.fault # "none" THEN
+  IN IF e.fault = "none" /\ ~BeyondSame(e) THEN
+        \* an element behind the declared extent changed: a write outside the destination (C01 as well as C14)
+        V(FALSE, "write_outside_dest", "", buf, p, FALSE, FALSE)
+     ELSE IF e.fault # "none" THEN
         \* known finding: the scan dereferences before it tests the remaining length (reads dest[dmax])
         IF e.fault = "r" /\ nul = 0 /\ e.foff = dmax0 + 1 /\ e.post = buf
         THEN V(FALSE, "read_at_dmax", "Dev_tok_term_at_dmax", buf, p, FALSE, FALSE)
